@@ -30,6 +30,11 @@ struct verif_in {
 	int write_ret[NF];
 	int used_parity, valid_parity;
 	int recov_ok[LEV_MAX], has_parity[LEV_MAX], excluded[LEV_MAX], pwrite_ret[LEV_MAX];
+	/* data verify region */
+	int dv_read_ret, dv_rehash;
+	unsigned dv_state, dv_slot;
+	unsigned char dv_digest[16], dv_recorded[16];
+	unsigned dv_failed0, dv_error0;
 	/* repair outcome region */
 	int repair_ret;
 	unsigned char computed[LEV_MAX * BS], ondisk[LEV_MAX * BS];
@@ -287,6 +292,90 @@ void h_repair_outcome(void)
 					differs = 1;
 			VERIF_ASSERT((buffer_recov[l] != 0) == (l < IN.level && IN.recov_ok[l] && !(cmp && differs)), "a parity level found wrong is dropped so that fix rewrites it; a correct one is kept");
 		}
+	}
+	VERIF_CANARY();
+}
+
+
+/*
+ * The per-disk data verification of check / fix (state_check_process, region "read from the file" up to "now read and check
+ * the parity"): a block that cannot be read, or whose digest (previous hash kind during a migration) differs from the
+ * recorded hash over BLOCK_HASH_SIZE bytes, enters the failed set as BAD with the slot / file / position it came from and
+ * is counted; a pending (CHG) block always enters as NOT bad (it is never overwritten on a guess); a replaced (REP) block
+ * that matches enters as not bad; a synced block that matches does not enter.
+ */
+static unsigned g_dv_read, g_dv_hash;
+static unsigned g_dv_kind;
+static const void *g_dv_src;
+static size_t g_dv_len;
+static int v_handle_read(struct snapraid_handle *h, block_off_t file_pos, unsigned char *buf, unsigned block_size, fptr *out, fptr *out_missing)
+{ (void)h; (void)file_pos; (void)buf; (void)out; (void)out_missing; ++g_dv_read; return IN.dv_read_ret < 0 ? -1 : (int)(IN.dv_read_ret % (block_size + 1)); }
+static void v_memhash(unsigned kind, const unsigned char *seed, void *digest, const void *src, size_t size)
+{
+	int k;
+	(void)seed;
+	++g_dv_hash; g_dv_kind = kind; g_dv_src = src; g_dv_len = size;
+	for (k = 0; k < 16; ++k)
+		((unsigned char *)digest)[k] = IN.dv_digest[k];
+}
+#define handle_read v_handle_read
+#define memhash v_memhash
+#define memdiff o_memdiff
+#define esc_tag w_esc
+#include "region_data_verify.c"
+#undef handle_read
+#undef memhash
+#undef memdiff
+#undef esc_tag
+
+void h_data_verify(void)
+{
+	static struct snapraid_state ST;
+	static struct failed_struct FAILED[NF + 1];
+	static unsigned char BLKMEM[64];
+	struct snapraid_block *b = (struct snapraid_block *)BLKMEM;
+	void *buffer[4 + LEV_MAX];
+	unsigned j, k, failed_count, error, eq = 1;
+	data_off_t countsize = 0;
+	VERIF_INPUTS();
+	VERIF_ASSUME(IN.dv_slot < 4 && IN.dv_failed0 <= NF - 1 && IN.dv_error0 < 100000);
+	VERIF_ASSUME(IN.dv_state == BLOCK_STATE_BLK || IN.dv_state == BLOCK_STATE_CHG || IN.dv_state == BLOCK_STATE_REP);
+	BLOCK_HASH_SIZE = 16;
+	ST.block_size = BS;
+	ST.hash = HASH_MURMUR3;
+	ST.prevhash = HASH_SPOOKY2;
+	block_state_set(b, IN.dv_state);
+	for (k = 0; k < 16; ++k) {
+		b->hash[k] = IN.dv_recorded[k];
+		if (IN.dv_recorded[k] != IN.dv_digest[k])
+			eq = 0;
+	}
+	for (j = 0; j < 4 + LEV_MAX; ++j)
+		buffer[j] = BUF[j];
+	failed_count = IN.dv_failed0; error = IN.dv_error0;
+	g_dv_read = g_dv_hash = 0;
+	j = IN.dv_slot;
+	region_data_verify(&ST, IN.dv_rehash, 7, j, HND[0], &DK, FIL[0], 3, b, IN.dv_state, buffer, FAILED, &failed_count, &error, &countsize);
+
+	VERIF_ASSERT(g_dv_read == 1, "the block is read once");
+	{
+		int entered = failed_count == IN.dv_failed0 + 1;
+		int bad_expected, enter_expected;
+		if (IN.dv_read_ret < 0) { enter_expected = 1; bad_expected = 1; }
+		else if (IN.dv_state == BLOCK_STATE_CHG) { enter_expected = 1; bad_expected = 0; }
+		else if (!eq) { enter_expected = 1; bad_expected = 1; }
+		else if (IN.dv_state == BLOCK_STATE_REP) { enter_expected = 1; bad_expected = 0; }
+		else { enter_expected = 0; bad_expected = 0; }
+		VERIF_ASSERT(failed_count == IN.dv_failed0 + (unsigned)enter_expected, "a block enters the failed set iff it could not be read, does not match its hash, or has no valid parity (CHG / REP)");
+		VERIF_ASSERT(error == IN.dv_error0 + (unsigned)bad_expected, "every unreadable or mismatching block is counted as an error, nothing else");
+		if (entered) {
+			struct failed_struct *f = &FAILED[IN.dv_failed0];
+			VERIF_ASSERT(f->is_bad == bad_expected && f->is_outofdate == 0, "it is marked bad exactly when it could not be read or its digest differs from the recorded hash; a pending block is never marked bad");
+			VERIF_ASSERT(f->index == IN.dv_slot && f->block == b && f->disk == &DK && f->file == FIL[0] && f->file_pos == 3 && f->handle == &HND[0][IN.dv_slot], "with the disk slot, block, file, position and handle it came from");
+		}
+		if (IN.dv_read_ret >= 0 && IN.dv_state != BLOCK_STATE_CHG)
+			VERIF_ASSERT(g_dv_hash == 1 && g_dv_src == BUF[IN.dv_slot] && g_dv_len == (size_t)(IN.dv_read_ret % (BS + 1)) && g_dv_kind == (IN.dv_rehash ? HASH_SPOOKY2 : HASH_MURMUR3),
+				"the digest is taken over exactly the bytes read from that slot, with the previous hash kind exactly during a migration");
 	}
 	VERIF_CANARY();
 }
